@@ -73,8 +73,9 @@ def build_dir():
             import shutil
             dirs = sorted((os.path.join(BUILD, x) for x in os.listdir(BUILD) if os.path.isdir(os.path.join(BUILD, x))),
                           key=os.path.getmtime, reverse=True)
-            for old in dirs[5:]:
-                shutil.rmtree(old, ignore_errors=True)
+            for old in dirs[8:]:
+                if time.time() - os.path.getmtime(old) > 3 * 3600:  # never a directory another run may still be using
+                    shutil.rmtree(old, ignore_errors=True)
         except OSError:
             pass
         _src_hash_cache["bd"] = d
